@@ -140,6 +140,24 @@ func c17Wrap(m *Model, v *Verdict, rng *RNG, et int32, keyb []byte, usage uint32
 	if len(payload) == 5 && flags == 1 {
 		v.Sample(op + " -> " + want)
 	}
+	// the RRC field (octets 6..7, big endian) is marshalled as it is set: it is outside the checksum
+	for _, rrc := range []uint16{12, 28, 0xABCD, uint16(rng.Intn(65536))} {
+		w2 := wt
+		w2.RRC = rrc
+		b2, err := w2.Marshal()
+		exp := append([]byte{}, b...)
+		exp[6], exp[7] = byte(rrc>>8), byte(rrc)
+		v.Case(fmt.Sprintf("wrap/%d/rrc", et), "wrap build with RRC set")
+		if err != nil || X(b2) != X(exp) {
+			v.Violate("failing-input", fmt.Sprintf("c17:wrap-rrc:%d", et), "a Wrap token with RRC set is not marshalled in the RFC 4121 4.2.6.2 layout (RRC in octets 6..7)", map[string]string{"rrc": fmt.Sprint(rrc), "go": X(b2), "rfc": X(exp)})
+			break
+		}
+		var back gssapi.WrapToken
+		if e := back.Unmarshal(b2, flags&1 == 1); e != nil || back.RRC != rrc {
+			v.Violate("failing-input", fmt.Sprintf("c17:wrap-rrc-roundtrip:%d", et), "Marshal followed by Unmarshal does not return the RRC that was set", map[string]string{"rrc": fmt.Sprint(rrc), "got": fmt.Sprint(back.RRC)})
+			break
+		}
+	}
 	expect := flags&1 == 1
 	cmp := func(kind string, tok []byte, exp bool, mustVerify int) {
 		g := goUnwrap(tok, exp, key, usage)
